@@ -50,12 +50,12 @@ func (r *VRep) LoopTicks() uint64 {
 }
 
 type VAsset struct {
-	Root   string
-	Path   string
-	MPDs   map[string]*MPD
-	Reps   map[string]*VRep
-	Ref    *VRep
-	LoopMS int64 // exact when LoopExact
+	Root      string
+	Path      string
+	MPDs      map[string]*MPD
+	Reps      map[string]*VRep
+	Ref       *VRep
+	LoopMS    int64 // exact when LoopExact
 	LoopExact bool
 }
 
